@@ -284,3 +284,56 @@ func HarnessC08NoPublisher() {
 	}
 	cancel()
 }
+
+// HarnessC08ReAdd: the supported way of replacing a handler on a running router: Stop, wait for Stopped(),
+// AddHandler under the same name (other topics, other subscriber and publisher), RunHandlers. Messages of the
+// new handler go to the new function, see the new names in their context and their outputs reach the new
+// publisher on the new topic only; nothing of the stopped handler is left behind.
+func HarnessC08ReAdd() {
+	r, _ := NewRouter(RouterConfig{}, watermill.NopLogger{})
+	r.isRunning = true
+	ctx, cancel := context.WithCancel(context.Background())
+	defer cancel()
+	sub1, sub2 := &countingSubscriber{}, &countingSubscriber{}
+	pub1, pub2 := &scriptedPublisher{name: "p1"}, &scriptedPublisher{name: "p2"}
+	calls1, calls2 := 0, 0
+	var in2Name, in2Sub, in2Pub string
+	o1, o2 := NewMessage("o1", nil), NewMessage("o2", nil)
+	if vrt.Bool("router.has.publisher.decorator") {
+		r.AddPublisherDecorators(func(p Publisher) (Publisher, error) { return p, nil })
+	}
+	h1 := r.AddHandler("h", "in1", sub1, "out1", pub1, func(m *Message) ([]*Message, error) {
+		calls1++
+		return []*Message{o1}, nil
+	})
+	vrt.Assert(r.RunHandlers(ctx) == nil, "first handler started")
+	m1 := NewMessage("m1", nil)
+	sub1.chans[0] <- m1
+	<-m1.Acked()
+	h1.Stop()
+	<-h1.Stopped()
+	h2 := r.AddHandler("h", "in2", sub2, "out2", pub2, func(m *Message) ([]*Message, error) {
+		calls2++
+		c := m.Context()
+		in2Name, in2Sub, in2Pub = HandlerNameFromCtx(c), SubscribeTopicFromCtx(c), PublishTopicFromCtx(c)
+		return []*Message{o2}, nil
+	})
+	vrt.Assert(r.RunHandlers(ctx) == nil, "replacement started")
+	<-h2.Started()
+	vrt.Assert(len(sub2.chans) == 1 && len(sub1.chans) == 1, "the replacement subscribes on its own subscriber, once")
+	if len(sub2.chans) != 1 {
+		return
+	}
+	m2 := NewMessage("m2", nil)
+	sub2.chans[0] <- m2
+	select {
+	case <-m2.Acked():
+	case <-m2.Nacked():
+	}
+	vrt.Assert(calls1 == 1 && calls2 == 1, "each message is passed to the function of the handler it arrived for, only")
+	vrt.Assert(in2Name == "h" && in2Sub == "in2" && in2Pub == "out2", "inside the replacement the context reports its own topics")
+	vrt.Assert(len(pub1.calls) == 1 && pub1.calls[0].topic == "out1" && len(pub1.calls[0].msgs) == 1 && pub1.calls[0].msgs[0] == o1, "the first handler's output went to its publisher and topic; nothing else ever does")
+	vrt.Assert(len(pub2.calls) == 1 && pub2.calls[0].topic == "out2" && len(pub2.calls[0].msgs) == 1 && pub2.calls[0].msgs[0] == o2, "the replacement's output goes to its own publisher on its own topic")
+	vrt.Assert(settlementOf(m2) == 1, "and the message is acked")
+	vrt.Observe("calls2", calls2)
+}
